@@ -356,6 +356,24 @@ func c14SigSkeleton(s string) string {
 	return string(b)
 }
 
+// c14Confusable reports whether a log line that prints the name other - with anything at all before
+// and after it - could be taken for a mention of the odd signature: some alignment of the two in
+// which every printable byte of the odd signature that falls on a byte of other agrees with it.
+func c14Confusable(other, odd string) bool {
+	for d := -3; d <= 3; d++ {
+		ok := true
+		for k := 0; k < 4 && ok; k++ {
+			if printable := odd[k] >= 0x20 && odd[k] <= 0x7e; printable && k+d >= 0 && k+d < len(other) {
+				ok = other[k+d] == odd[k]
+			}
+		}
+		if ok {
+			return true
+		}
+	}
+	return false
+}
+
 // c14Mentions reports whether a log line names the signature: its four bytes as they are, or - for
 // a signature with odd bytes - with anything at all printed in place of an odd byte.
 func c14Mentions(line, sig string) bool {
@@ -399,13 +417,20 @@ func c14Build(c *c14Case) (*c14Env, error) {
 	for i := range arena {
 		arena[i] = 0
 	}
-	sigs := map[string]bool{}
+	sigs := map[string]bool{"RSD ": true, "PTR ": true}
 	checkTable := func(tb *c14Table, what string) error {
 		if !c14ValidSig(tb.Sig) {
 			return fmt.Errorf("%s: signature %q", what, tb.Sig)
 		}
 		if sigs[tb.Sig] {
 			return fmt.Errorf("%s: signature %q is not distinct", what, tb.Sig)
+		}
+		for other := range sigs {
+			// (a signature with an odd byte must not be confusable with another name of the image,
+			// however the log prints that byte: the generator sees to that, a replay file must too)
+			if (c14SigSkeleton(tb.Sig) != tb.Sig && c14Confusable(other, tb.Sig)) || (c14SigSkeleton(other) != other && c14Confusable(tb.Sig, other)) {
+				return fmt.Errorf("%s: signature %q can be confused with %q on the log", what, tb.Sig, other)
+			}
 		}
 		sigs[tb.Sig] = true
 		if tb.Corrupt != 0 && (tb.Corrupt < 8 || tb.Corrupt >= tb.length() || tb.Delta == 0) {
@@ -1619,9 +1644,12 @@ func c14Gen(t *rapid.T, st *vlib.Stats) c14Case {
 		if c14SigSkeleton(sigs[i]) == sigs[i] {
 			continue
 		}
-		clash := nbulk > 0 || c14Mentions("RSDT XSDT FACP DSDT RSD PTR", sigs[i])
+		clash := nbulk > 0
+		for _, fixed := range []string{"RSDT", "XSDT", "FACP", "DSDT", "RSD ", "PTR "} {
+			clash = clash || c14Confusable(fixed, sigs[i])
+		}
 		for j := range sigs {
-			clash = clash || (j != i && c14Mentions(sigs[j], sigs[i]))
+			clash = clash || (j != i && c14Confusable(sigs[j], sigs[i]))
 		}
 		for d := byte('0'); clash && d <= '9'; d++ {
 			b := []byte(sigs[i])
